@@ -102,17 +102,44 @@ def stage_triggers(ctx, e, n):
         un = upd.UpdateableNode(q, db.StorageNode.get(id=node))
         try:
             if trigger == "import":
+                import peewee as pw
+                import verif_dbext
                 verif_idext.MODE[:] = ["first", 1]
                 req = db.ArchiveFileImportRequest.create(node=node, path="acq/f1", recurse=False, register=True)
                 auto_import.import_file(un, q, pathlib.PurePath("acq/f1"), True, req)
-                item = q.get(timeout=0.001)
-                while item is not None:
-                    item[0](); q.task_done(item[1]); item = q.get(timeout=0.001)
+                if rng.random() < 0.4:
+                    verif_dbext.reset_counters()
+                    verif_dbext.CTL["fault_at"] = {rng.randint(0, 9)}
+                    trigger = "import+dbfault"
+                try:
+                    item = q.get(timeout=0.001)
+                    while item is not None:
+                        try:
+                            item[0]()
+                        finally:
+                            q.task_done(item[1])
+                        item = q.get(timeout=0.001)
+                except pw.OperationalError:
+                    pass
+                finally:
+                    verif_dbext.CTL["fault_at"] = set()
             else:
                 srcn = rng.choice([i for (i, g) in nodes if i != node] or [node])
                 rq = db.ArchiveFileCopyRequest.create(file=1, node_from=srcn, group_to=nrow[node].group_id)
                 before_req.add(rq.id)
-                ioutil.copy_request_done(rq, un.io, True, True, time.time() - 1)
+                import peewee as pw
+                import verif_dbext
+                if rng.random() < 0.4:
+                    # a database error somewhere in the completion: either the file does not become present, or the rules fire
+                    verif_dbext.reset_counters()
+                    verif_dbext.CTL["fault_at"] = {rng.randint(0, 9)}
+                    trigger = "pull+dbfault"
+                try:
+                    ioutil.copy_request_done(rq, un.io, True, True, time.time() - 1)
+                except pw.OperationalError:
+                    pass
+                finally:
+                    verif_dbext.CTL["fault_at"] = set()
         except Exception as ex:  # noqa
             ctx.violation("trigger:raised", f"{trigger} trigger raised {type(ex).__name__}: {ex}", {"kind": "trigger", "trigger": trigger, "pre": pre})
             continue
